@@ -37,6 +37,9 @@ fn run_case(sc: &Value, rng: &mut SmallRng) -> Vec<Value> {
     let sk = sc["sk"].as_str().unwrap_or("");
     let uk = sc["uk"].as_str().unwrap_or("-");
     let truncated = sc["form"].as_str() == Some("truncated");
+    // "here" | "elsewhere" | "elsewhere-used": the credential is registered at the listener under test / at another listener
+    // of this process only / and that other listener has already served it
+    let at = sc["at"].as_str().unwrap_or("here");
     let now = rc::unix_now();
     let mut out = Vec::new();
     let user_index = |u: &str| match u {
@@ -100,7 +103,15 @@ fn run_case(sc: &Value, rng: &mut SmallRng) -> Vec<Value> {
             if truncated {
                 wire.truncate(40);
             }
-            let l = sv::listener(&sut::trojan_server_cfg(sut::TROJAN_PW)).unwrap();
+            if at == "elsewhere-used" {
+                let l2 = sv::listener(&sut::trojan_server_cfg(sut::TROJAN_PW)).unwrap();
+                let g2 = sut::server_decode(&mut l2.new_codec().unwrap(), &mut BytesMut::from(&wire[..]));
+                if !emitted(&g2) {
+                    out.push(json!({"variant": "trojan", "emit": false, "user": "-", "reply": "none", "detail": format!("TOOL: the listener the credential belongs to refused it: {}", brief(&g2))}));
+                    return out;
+                }
+            }
+            let l = sv::listener(&sut::trojan_server_cfg(if at == "here" { sut::TROJAN_PW } else { "the password of another entry" })).unwrap();
             let got = sut::server_decode(&mut l.new_codec().unwrap(), &mut BytesMut::from(&wire[..]));
             out.push(json!({"variant": "trojan", "emit": emitted(&got), "user": "-", "reply": if emitted(&got) { "server" } else { "none" }, "detail": brief(&got)}));
         }
@@ -122,7 +133,21 @@ fn run_case(sc: &Value, rng: &mut SmallRng) -> Vec<Value> {
                 if truncated {
                     wire.truncate(30);
                 }
-                let l = sv::listener(&sut::vmess_server_cfg(&[sut::UUID_A, sut::UUID_B])).unwrap();
+                let l = if at == "here" {
+                    sv::listener(&sut::vmess_server_cfg(&[sut::UUID_A, sut::UUID_B])).unwrap()
+                } else {
+                    // this listener's entry registers the OTHER user only; the presented id belongs to another entry
+                    let other = if uuid == sut::UUID_A { sut::UUID_B } else { sut::UUID_A };
+                    if at == "elsewhere-used" {
+                        let l2 = sv::listener(&sut::vmess_server_cfg(&[uuid])).unwrap();
+                        let g2 = sut::server_decode(&mut l2.new_codec().unwrap(), &mut BytesMut::from(&wire[..]));
+                        if !emitted(&g2) {
+                            out.push(json!({"variant": format!("vmess sec {sec}"), "emit": false, "user": "-", "reply": "none", "detail": format!("TOOL: the listener the id belongs to refused it: {}", brief(&g2))}));
+                            continue;
+                        }
+                    }
+                    sv::listener(&sut::vmess_server_cfg(&[other])).unwrap()
+                };
                 let mut codec = l.new_codec().unwrap();
                 let got = sut::server_decode(&mut codec, &mut BytesMut::from(&wire[..]));
                 // the answer must open under the keys derived from *this* request (the only user-bound secret VMess has)
@@ -192,7 +217,24 @@ fn run_case(sc: &Value, rng: &mut SmallRng) -> Vec<Value> {
                     s.out
                 };
                 let wire = if truncated { wire[..wire.len().min(n + 20)].to_vec() } else { wire };
-                let l = sv::listener(&sut::ss_server_cfg(c, users)).unwrap();
+                let l = if at == "here" || !multi {
+                    sv::listener(&sut::ss_server_cfg(c, users)).unwrap()
+                } else {
+                    // another entry of the same process has the same server key and registers the presented user; this one
+                    // registers the other user only
+                    let me = user_index(uk).unwrap_or(0);
+                    let entry = |keep: usize| json!({"host":"127.0.0.1","port":1,"password":sp,"protocol":"shadowsocks","cipher":c.name(),
+                        "user":[{"name": us[keep].0, "password": us[keep].1}]}).to_string();
+                    if at == "elsewhere-used" {
+                        let l2 = sv::listener(&entry(me)).unwrap();
+                        let g2 = sut::server_decode(&mut l2.new_codec().unwrap(), &mut BytesMut::from(&wire[..]));
+                        if !emitted(&g2) {
+                            out.push(json!({"variant": c.name(), "emit": false, "user": "-", "reply": "none", "detail": format!("TOOL: the listener the user belongs to refused it: {}", brief(&g2))}));
+                            continue;
+                        }
+                    }
+                    sv::listener(&entry(1 - me)).unwrap()
+                };
                 let mut codec = l.new_codec().unwrap();
                 let got = sut::server_decode(&mut codec, &mut BytesMut::from(&wire[..]));
                 let mut reply = "none".to_owned();
